@@ -203,7 +203,8 @@ Definition run (i : ops) : outs := run_with CID_QUEUE_LEN i.
     no panic; after every op the reported active sequence number is 0 or the sequence number of
     an earlier insert that the implementation accepted, and is not below the [retire_prior_to] of
     any accepted insert; every returned retired range is non-empty, has at most [L] elements and
-    ends at or below the new active sequence number.  Ops of a case that call
+    ends at or below the new active sequence number, and the reset token reported with it is
+    the token of the CID that is active afterwards (C04).  Ops of a case that call
     [update_initial_cid] after an insert/next are outside the caller's contract (debug
     assertion) and are exempt from the no-panic clause. *)
 Fixpoint oracle_go (L : Z) (i : ops) (o : outs) (acc : list (Z * Z)) : bool :=
@@ -211,7 +212,7 @@ Fixpoint oracle_go (L : Z) (i : ops) (o : outs) (acc : list (Z * Z)) : bool :=
   | [], [] => true
   | op :: i', out :: o' =>
       match out with
-      | aseq :: _ :: code :: tl =>
+      | aseq :: aid :: code :: tl =>
           let acc' :=
             match op with
             | [0; _] => []
@@ -224,8 +225,8 @@ Fixpoint oracle_go (L : Z) (i : ops) (o : outs) (acc : list (Z * Z)) : bool :=
             && forallb (fun p => snd p <=? aseq) acc' in
           let ok_range :=
             match op, code :: tl with
-            | 1 :: _, [1; lo; hi; _] => (lo <? hi) && (hi - lo <=? L) && (hi <=? aseq)
-            | [2], [1; _; lo; hi] => (lo <? hi) && (hi =? aseq)
+            | 1 :: _, [1; lo; hi; tk] => (lo <? hi) && (hi - lo <=? L) && (hi <=? aseq) && (tk =? aid)
+            | [2], [1; tk; lo; hi] => (lo <? hi) && (hi =? aseq) && (tk =? aid)
             | _, _ => true
             end in
           ok_active && ok_range && oracle_go L i' o' acc'
